@@ -200,7 +200,7 @@ Fixpoint skip_loop (fuel : nat) (c : client) (request total : Z) : Z * client :=
 Definition skip_proxy (s : filt) (request : Z) : Z * client :=
   let c := cl s in
   if (request =? 0)%Z then (0%Z, c)
-  else if has_skip c then skip_loop (length (splan c) + 3) c request 0%Z
+  else if has_skip c then skip_loop (2 * length (splan c) + 4) c request 0%Z
   else if has_seek c && (65536 <? request)%Z then
     let before := fpos s in
     let '(after, c') := client_seek c request 1 in
